@@ -305,6 +305,22 @@ func (g *PG) stmt(depth int) {
 			return
 		}
 		e, k := kindOfExprGen(g, 2)
+		if r.Intn(4) == 0 {
+			// several variables in one declaration
+			n2 := g.Names[r.Intn(len(g.Names))]
+			if n2 != name && !g.inTop(n2) {
+				e2, k2 := kindOfExprGen(g, 1)
+				extra := ""
+				if r.Bool() {
+					g.tag++
+					extra = fmt.Sprintf(", t%d", g.tag)
+				}
+				g.line(K["var"] + " " + name + " = " + e + ", " + n2 + " = " + e2 + extra + ";")
+				g.declare(gvar{name: name, kind: k})
+				g.declare(gvar{name: n2, kind: k2})
+				return
+			}
+		}
 		g.line(Var(name, e))
 		g.declare(gvar{name: name, kind: k})
 	case choice < 8: // assignment
